@@ -75,9 +75,36 @@ func init() {
 	register(&Monitor{ID: "C16", Run: runC16, Self: selfC16})
 }
 
+// deepOutputTrees: chains far deeper than the random trees (serializer recursion, nested buffers).
+func deepOutputTrees(c *fw.Ctx, body func(tree *spec.Spec, r *rng.R)) {
+	depths := []int{40, 129, 1000, 5000}
+	if !c.Quick() {
+		depths = append(depths, 20000)
+	}
+	c.Cases("deep", len(depths)*2, true, func(i int, r0 *rng.R) {
+		d := depths[i/2]
+		if c.Arch386 && d > 5000 {
+			return
+		}
+		tree := spec.ListV(spec.FloatV(1), spec.StrV("leaf\n"), spec.ObjV())
+		for j := 0; j < d; j++ {
+			if (j+i)%2 == 0 {
+				tree = spec.ListV(tree)
+			} else {
+				tree = spec.ObjV("k\"", tree)
+			}
+		}
+		c.Max("max_depth", int64(d))
+		body(tree, nil)
+	})
+}
+
 func runC01(c *fw.Ctx) {
 	forEachOutputTree(c, 4000, 2000000, func(tree *spec.Spec, r *rng.R) {
-		guard(c, func() string { return describeTree(tree) }, func() { c01Case(c, tree, r) })
+		guard(c, func() string { return spec.Trunc(describeTree(tree), 3000) }, func() { c01Case(c, tree, r) })
+	})
+	deepOutputTrees(c, func(tree *spec.Spec, r *rng.R) {
+		guard(c, func() string { return spec.Trunc(describeTree(tree), 300) }, func() { c01Case(c, tree, r) })
 	})
 	historyCases(c, "history", 600, 60000, probeRoundTrip)
 }
@@ -211,6 +238,13 @@ func runC02(c *fw.Ctx) {
 		})
 	})
 	historyCases(c, "history", 600, 60000, probeJSONText)
+	deepOutputTrees(c, func(tree *spec.Spec, r *rng.R) {
+		guard(c, func() string { return spec.Trunc(describeTree(tree), 300) }, func() {
+			real := drive.Build(r, tree)
+			text := stringOf(real)
+			checkJSONText(c, "string", text, tree, func() string { return spec.Trunc(describeTree(tree), 300) })
+		})
+	})
 }
 
 func selfC02(s *fw.SelfCheck) {
